@@ -77,7 +77,7 @@ func (fi *fnInfo) derivesCallOn(v ssa.Value, method, recvProv string) bool {
 
 func (k *checker) persist3() {
 	enc := k.fn("generator/graph", "Instance.EncodeToAppSchema")
-	bld := k.fn("generator/graph", "Instance.buildNodeGraphInstanceSchema")
+	bld := k.nodeEncoder()
 	if enc == nil || bld == nil {
 		return
 	}
@@ -104,7 +104,11 @@ func (k *checker) persist3Encode(fn, bld *ssa.Function, name string) {
 		return
 	}
 	appP := app.Name()
-	idsP := recv + ".nodeIDs"
+	roles, okRoles := k.instRoles()
+	if !okRoles {
+		return
+	}
+	idsP := recv + "." + roles.ids
 
 	eachOK := func(it *iter, action func(ssa.Instruction) bool) (bool, string) {
 		if it.skips(action, nil) {
@@ -203,7 +207,7 @@ func (k *checker) persist3Encode(fn, bld *ssa.Function, name string) {
 	// ---- producers
 	{
 		construct := name + "#producers"
-		prodP := recv + ".producers"
+		prodP := recv + "." + roles.producers
 		var mus []*ssa.MapUpdate
 		ssau.AllInstrs(fn, func(in ssa.Instruction) {
 			if mu, ok := in.(*ssa.MapUpdate); ok && fi.prov(mu.Map) == appP+".Producers" {
@@ -346,7 +350,7 @@ func (k *checker) persist3Build(fn *ssa.Function, name string) {
 						if fa[0] == "DependencyID" {
 							if derives(v, func(y ssa.Value) bool {
 								lk, isLk := y.(*ssa.Lookup)
-								return isLk && fi.prov(lk.X) == recv+".nodeIDs" && fi.derivesCallOn(lk.Index, fa[1], elemP)
+								return isLk && fi.prov(lk.X) == recv+"."+k.idTableName() && fi.derivesCallOn(lk.Index, fa[1], elemP)
 							}) {
 								ok = true
 							}
